@@ -14,7 +14,29 @@ COMMON_ASSUMPTIONS = [
 def ser(secs, flavor="fast", **kw): return dict(flavor=flavor, lane="ser", secs=secs, **kw)
 def free(secs, flavor="fast", **kw): return dict(flavor=flavor, lane="free", secs=secs, **kw)
 
+def plan(rule, quick, thorough, min_q, min_t, extra_assumptions=(), level="exploration"):
+    return {"level": level, "rule": rule, "quick": quick, "thorough": thorough, "min_evaluations": {"quick": min_q, "thorough": min_t},
+            "assumptions": COMMON_ASSUMPTIONS + list(extra_assumptions)}
+
+def order(secs, lane="free", flavor="fast", **kw): return dict(flavor=flavor, lane=lane, secs=secs, args=["--set", "workload=order"], **kw)
+
 PLANS = {
+    "C01": plan("one evaluation = one execution of 1-4 producers (random entry points: send, send_with, send_with_async, reserve+try_send_reserved; rejected sends retried 0-3 times, then given up) "
+                "against 1..MAX_STREAMS polling consumers on a random Uni kind / BUFFER_SIZE in {2,4,8,16,64} / MAX_STREAMS in {1,2,4}, payload with or without destructor, under a seeded schedule "
+                "(SER) or free-running with injected delays (FREE, 200-3200 events per producer); oracle = conservation over unique ids (exactly-once, nothing unsent, rejected never delivered, "
+                "rejected input handed back unchanged and un-invoked); distinct = distinct (schedule hash, configuration); non-trivial = every counted run had >= 2 threads interleaved",
+                [ser(15), free(10), ser(6, flavor="checked", shards=8)], [ser(200), free(150), ser(80, flavor="checked"), free(60, flavor="checked")], 2000, 20000),
+    "C02": plan("one evaluation = one concurrent history (2-4 threads, 2-7 operations each or a fill-until-full/drain-until-empty burst) of send / poll / release-handle operations on a Uni channel kind "
+                "or directly on the AtomicMove / FullSyncMove rings (BUFFER_SIZE 2,4,8), stamped at the client boundary and checked by a WGL linearizability checker against a bounded FIFO "
+                "('full' may take effect wherever occupancy + operations in progress reach BUFFER_SIZE); plus long free-running runs checked for per-producer order per stream (workload=order); "
+                "distinct = distinct observed history (thread, operation, result in call order)",
+                [ser(15), free(10), order(6, shards=8)], [ser(200), free(150), order(80), ser(60, flavor="checked")], 2000, 20000,
+                ["WGL search budget 2M states per history; exhausting it counts as inconclusive"]),
+    "C03": plan("one evaluation = one execution with a fixed set of 1..min(4,MAX_STREAMS) listeners created before the first send, 1-3 producers through random entry points (send, send_with, "
+                "send_with_async, send_derived, reserve+try_send_reserved), independent polling threads per listener, on a random Multi kind (6 kinds); Arc kinds are kept within the buffer "
+                "(they wait by design beyond it); oracle = per-listener exactly-once + per-producer order + same address across listeners while every handle is still held + reference count = "
+                "live handles at quiescence; distinct = distinct (schedule hash, configuration)",
+                [ser(15), free(8), ser(6, flavor="checked", shards=8)], [ser(200), free(120), ser(80, flavor="checked")], 2000, 20000),
     "C04": {
         "level": "exploration",
         "rule": "one evaluation = one execution of a closed system (1-3 producers through a random entry point, 1..MAX_STREAMS parked-when-Pending consumers, "
@@ -31,7 +53,19 @@ PLANS = {
 LEVEL_NOTE = ("trusted base: the harness (conductor/chaos scheduler, recorder, checkers), the placement of the hook sites, x86-64/TSO for the free-running lane, "
               "tokio/futures/crossbeam/parking_lot as black boxes; nothing is claimed about executions that were not produced")
 
+def meta(engine, technique, text, ref):
+    return {"engine": engine, "technique": technique, "level_text": text + " Held on the executions observed, nothing more.", "design_ref": ref, "level_note": LEVEL_NOTE}
+
 META = {
+    "C01": meta("conductor+chaos", "runtime monitoring: seeded controlled scheduling + multi-core stress with injected delays; conservation (exactly-once) oracle over unique event ids recorded at the client boundary",
+                "Randomised exploration of real executions of the five Uni channel kinds with concurrent producers and polling consumers; every accepted id must be yielded exactly once, nothing else may be yielded.",
+                "DESIGN.md section 2, C01"),
+    "C02": meta("conductor+chaos", "runtime monitoring: recorded call/return histories checked offline for linearizability (WGL) against a sequential bounded-FIFO model; per-producer order on long runs",
+                "Randomised exploration: many short concurrent histories on the real channels and rings, each decided by an exact linearizability check against the sequential model the property names.",
+                "DESIGN.md section 2, C02"),
+    "C03": meta("conductor+chaos", "runtime monitoring: per-listener exactly-once / order oracle over unique ids, allocation identity and reference counts compared while all handles are held",
+                "Randomised exploration of real executions of the six Multi channel kinds with a fixed listener set.",
+                "DESIGN.md section 2, C03"),
     "C04": {
         "engine": "conductor+chaos",
         "technique": "runtime monitoring: seeded controlled scheduling + stress with injected delays, exact-quiescence oracle over recorded send/poll/wake histories",
